@@ -182,6 +182,10 @@ Fixpoint size (s : sst) : nat :=
 Definition show_numlit (n : numlit) : string :=
   match n with ZLit z => "I" ++ show_Z z | XLit l => "O" ++ l end.
 
+(* str(value): what parse_number stores as the leaf's label *)
+Definition numlit_label (n : numlit) : string :=
+  match n with ZLit z => show_Z z | XLit l => l end.
+
 Definition show_tok (t : tok) : string :=
   match t with
   | KNum n => "n:" ++ show_numlit n
@@ -198,7 +202,7 @@ Definition show_usig (u : usig) : string := show_units (fst u) ++ "|" ++ show_un
 
 Fixpoint show_ptree (t : ptree) : string :=
   match t with
-  | PNum n => "N(" ++ show_numlit n ++ ")"
+  | PNum n => "N(" ++ numlit_label n ++ ")"
   | PStr s => "S(" ++ s ++ ")"
   | PInst s => "T(" ++ s ++ ")"
   | PVar x => "V(" ++ x ++ ")"
